@@ -885,6 +885,7 @@ func c08Fixed(cfg rspCfg) [][]rspOp {
 func runC08(c *Ctx) {
 	c08Timers(c)
 	c08PipelinedDeselect(c)
+	c08Storm(c) // reject storm against a slow-reading peer with a small send queue (c08_storm.go)
 	type job struct {
 		cfg rspCfg
 		rng *rand.Rand
